@@ -48,11 +48,11 @@ theorem C05_model_of_mono (cfg : Cfg) (s : List Char) (hend : (lexProgram cfg s)
   obtain ⟨pre, e, htoks, _⟩ := model_single_eof cfg s hend
   exact C05_pure cfg _ (model_lineWF cfg s hend hmono hsmall).wf (by rw [htoks]; simp)
 
-theorem C05_model (cfg : Cfg) (hd : cfg.debug = true) (s : List Char) (hend : (lexProgram cfg s).ending = some .eof)
+theorem C05_model (cfg : Cfg) (s : List Char) (hend : (lexProgram cfg s).ending = some .eof)
     (hsmall : (lineStarts s).length < two32) :
     ∃ rows, (lexProgram cfg s).buf.resolved cfg = .ok rows ∧ rows.length = (lexProgram cfg s).buf.toks.length ∧
       ∀ k r, rows[k]? = some r → (lexProgram cfg s).buf.accessorRow cfg k = .ok r :=
-  C05_model_of_mono cfg s hend (model_tokMono_debug cfg hd s hend) hsmall
+  C05_model_of_mono cfg s hend (model_tokMono cfg s hend) hsmall
 
 /-- non-vacuity: the buffer of a multi-line input with an empty token at a line start -/
 example : Spec.C05 "a;\n%let x 1;\n".toList (modelDump ⟨true, false, false⟩ "a;\n%let x 1;\n".toList) = [] := by
